@@ -13,6 +13,11 @@ EXTENDS Nowiki, Json, IOUtils
 (*   "frame"        nested: the payload is delivered, the rendering of the frames around it  *)
 (*                  differs from the model                                  (drift)          *)
 (*   "input"        the harness wrote an input that is not the model's      (machinery)      *)
+(*   k = "cm"   (written text, output) of a text without templates / links / nowiki, in      *)
+(*              which expand() has nothing to do but to remove the comments: the output (as  *)
+(*              characters) must be StripRef(written text);  verdict "comment" otherwise, with `like` = the   *)
+(*              mistaken rule of Nowiki.tla (CMistakes, "only") that gives the recorded      *)
+(*              output, if one does                                              (statement) *)
 Recorded == JsonDeserialize(IOEnv.TRACE_FILE)
 VARIABLES i, bad
 
@@ -32,16 +37,24 @@ JudgeNest(r, e, q, must) ==
   ELSE IF Exact(r.fs) /\ r.out # e THEN "frame"
   ELSE "ok"
 \* (the model's intermediate and final results are bound, so they are evaluated once)
+JudgeCm(r, e) ==
+  IF r.out = Chars(e) THEN "ok"
+  ELSE IF ~NoPlaceholder(r.out) THEN "placeholder"
+  ELSE "comment"
+Like(r, e) == IF r.out = Chars(e) \/ ~\E ru \in CMistakes \cup {"only"} : Chars(StripScan(r.inp, 1, ru)) = r.out THEN ""
+              ELSE CHOOSE ru \in CMistakes \cup {"only"} : Chars(StripScan(r.inp, 1, ru)) = r.out
 Judge(r) ==
-  IF r.k = "nest"
-  THEN CHOOSE j \in UNION { { [why |-> JudgeNest(r, e, Quote(r.c), Demand(r.fs, res)), expected |-> e, q |-> Quote(r.c)] : e \in {Fin(res, r.c)} }
+  IF r.k = "cm"
+  THEN CHOOSE j \in { [why |-> JudgeCm(r, e), expected |-> e, q |-> <<>>, like |-> Like(r, e)] : e \in {StripRef(r.inp)} } : TRUE
+  ELSE IF r.k = "nest"
+  THEN CHOOSE j \in UNION { { [why |-> JudgeNest(r, e, Quote(r.c), Demand(r.fs, res)), expected |-> e, q |-> Quote(r.c), like |-> ""] : e \in {Fin(res, r.c)} }
                             : res \in {NRes(r.fs, r.o)} } : TRUE
-  ELSE CHOOSE j \in { [why |-> JudgeCtx(r, e), expected |-> e, q |-> Quote(r.c)] : e \in {Expanded(r.ctx, r.c)} } : TRUE
+  ELSE CHOOSE j \in { [why |-> JudgeCtx(r, e), expected |-> e, q |-> Quote(r.c), like |-> ""] : e \in {Expanded(r.ctx, r.c)} } : TRUE
 
 TInit == i = 1 /\ bad = <<>>
 TNext == /\ i <= Len(Recorded)
          /\ \E j \in {Judge(Recorded[i])} :
-              bad' = IF j.why = "ok" THEN bad ELSE Append(bad, [i |-> i, why |-> j.why, expected |-> j.expected, q |-> j.q])
+              bad' = IF j.why = "ok" THEN bad ELSE Append(bad, [i |-> i, why |-> j.why, expected |-> j.expected, q |-> j.q, like |-> j.like])
          /\ i' = i + 1
 TSpec == TInit /\ [][TNext]_<<i, bad>>
 Verdict == (i = Len(Recorded) + 1) => PrintT(<<"VERDICT", ToJson([consumed |-> i - 1, bad |-> bad])>>)
